@@ -77,10 +77,13 @@ def deep_copy(v):
 
 
 class Interp:
-    def __init__(self, module, globals_init=None, f32_mode=False, max_steps=400000, floor_mod=False):
+    def __init__(self, module, globals_init=None, f32_mode=False, max_steps=400000, floor_mod=False, wide_literals=False):
         # floor_mod: `%` with a negative operand is evaluated like the VM does (floored) instead of being out of
         # domain.  Only C06 uses it, where this interpreter merely filters the numeric domain and the VM is the oracle.
         self.floor_mod = floor_mod
+        # wide_literals: an int literal outside the signed 32-bit range is taken at face value (only C06 uses it, with the VM
+        # as the oracle: what such a literal means to the backend is exactly what is being judged); results are still checked
+        self.wide_literals = wide_literals
         self.m = module
         self.globals = {}
         for t, n in module.globals:
@@ -305,7 +308,7 @@ class Interp:
         if k is IntLit:
             # a literal is an intermediate value like any other: outside the signed 32-bit range the
             # statements do not say what it means
-            return self._chk_int(e.value)
+            return e.value if self.wide_literals else self._chk_int(e.value)
         if k is FloatLit:
             return f32(e.value) if self.f32_mode else e.value
         if k is Var:
